@@ -7,6 +7,7 @@ mod pull;
 mod puppet;
 mod report;
 mod rng;
+mod run_churn;
 mod run_diff;
 mod run_indep;
 mod run_pull;
@@ -143,6 +144,14 @@ fn check(o: &Opts) -> i32 {
             run_seq::run(o, &mut rep);
             if o.ops.is_none() || o.cases.is_none() {
                 run_seq::run_enum(o, &mut rep);
+            }
+            if o.prop == "C12" && o.ops.is_none() && o.cases.is_none() {
+                engines.push("E1c-churn (long attach/detach histories against a reference model)");
+                run_churn::run(o, &mut rep);
+            }
+            if o.prop == "C14" && o.ops.is_none() {
+                engines.push("E2-pull (demand at the output of whole pull pipelines)");
+                run_pull::run(o, &mut rep);
             }
             if o.prop == "C15" && o.ops.is_none() {
                 run_san::deepiter_substep(o, &mut rep);
@@ -415,6 +424,7 @@ fn replay(o: &Opts) -> i32 {
         Some("E2") => run_pull::replay(o, &parts),
         Some("E3") => run_vclock::replay(o, &parts),
         Some("E1i") => run_indep::replay(o, &parts),
+        Some("E1c") => run_churn::replay(o, &parts),
         Some("E6") => run_diff::replay(o, &parts),
         Some("E1w") | Some("E3w") => {
             println!("{} is a directed witness of a known finding; it is executed by every run of `./check {}` (see the evidence file, key known_finding_witnesses)", id, parts.get(1).unwrap_or(&""));
